@@ -71,11 +71,16 @@ def check_convert_interval():
             got = 'raised %s: %s' % (type(e).__name__, e)
         if not (isinstance(got, (int, float)) and abs(got - want) < 1e-9):
             failures.append({'op': 'convert_interval', 'interval': txt, 'got': repr(got), 'expected_seconds': want})
-    for num in (0, 0.05, 1, 3, 86400, 129600.5):
+    import numpy as np
+    for num in (0, 0.05, 1, 3, 86400, 129600.5, np.int64(1), np.int32(2), np.float32(0.5), np.float64(0.25)):
         cases += 1
         got = convert_interval(num)
-        if got != num:
-            failures.append({'op': 'convert_interval', 'interval': num, 'got': repr(got), 'expected_seconds': num})
+        try:
+            same = float(got) == float(num)
+        except Exception:
+            same = False
+        if not same:
+            failures.append({'op': 'convert_interval', 'interval': repr(num), 'got': repr(got), 'expected_seconds': float(num)})
     return cases, failures[:3], [{'interval': '36h'}, {'interval': 0.05}]
 
 
@@ -248,7 +253,7 @@ def main():
     if pid in ('C13', 'C08'):
         c, f, smp = check_convert_interval()
         out.update({'cases': c, 'distinct': c, 'failures': f, 'samples': smp, 'ops': ['convert_interval'],
-                    'space': 'a fixed list of 18 pandas time strings from 1ms to 7 days (incl. >= 24h) and 6 numbers'})
+                    'space': 'a fixed list of 18 pandas time strings from 1ms to 7 days (incl. >= 24h) and 10 numbers (Python and numpy scalars)'})
     if pid == 'C17':
         c, f, smp = check_filenames()
         out.update({'cases': c, 'distinct': c, 'failures': f, 'samples': smp, 'ops': ['filenames._run'],
